@@ -31,6 +31,7 @@ from .header_parser import SuppressionsParser
 from .matcher import IgnoreSuppressionMatcher
 from .python_analyzer import PythonIgnoreDetector
 from .skip_detector import TestSkipDetector
+from .typescript_analyzer import TypeScriptIgnoreDetector
 from .types import IgnoreDirective, IgnoreType
 from .violation_builder import build_orphaned_violation, build_unjustified_violation
 
@@ -57,6 +58,9 @@ _SWITCH_BY_TYPE = {
 }
 
 
+_SUPPORTED_LANGUAGES = (Language.PYTHON, Language.TYPESCRIPT, Language.JAVASCRIPT)
+
+
 def _is_checked(ignore: IgnoreDirective, config: LazyIgnoresConfig) -> bool:
     """Check whether the configuration asks for this kind of suppression to be checked."""
     switch = _SWITCH_BY_TYPE.get(ignore.ignore_type)
@@ -73,6 +77,7 @@ class LazyIgnoresRule(BaseLintRule):
             check_test_skips: Whether to check for unjustified test skips.
         """
         self._python_detector = PythonIgnoreDetector()
+        self._typescript_detector = TypeScriptIgnoreDetector()
         self._test_skip_detector = TestSkipDetector()
         self._suppression_parser = SuppressionsParser()
         self._matcher = IgnoreSuppressionMatcher(self._suppression_parser)
@@ -106,7 +111,7 @@ class LazyIgnoresRule(BaseLintRule):
         Returns:
             List of violations for unjustified and orphaned suppressions.
         """
-        if context.language != Language.PYTHON:
+        if context.language not in _SUPPORTED_LANGUAGES:
             return []
 
         if not context.file_content:
@@ -114,10 +119,15 @@ class LazyIgnoresRule(BaseLintRule):
 
         file_path = str(context.file_path) if context.file_path else "unknown"
         config = load_linter_config(context, "lazy-ignores", LazyIgnoresConfig)
-        return self.check_content(context.file_content, file_path, config)
+        language = Language(context.language)
+        return self.check_content(context.file_content, file_path, config, language)
 
     def check_content(
-        self, code: str, file_path: str, config: LazyIgnoresConfig | None = None
+        self,
+        code: str,
+        file_path: str,
+        config: LazyIgnoresConfig | None = None,
+        language: Language = Language.PYTHON,
     ) -> list[Violation]:
         """Check code for unjustified ignores and orphaned suppressions.
 
@@ -125,20 +135,22 @@ class LazyIgnoresRule(BaseLintRule):
             code: Source code content to analyze.
             file_path: Path to the file being analyzed.
             config: Pattern switches from the configuration (defaults when omitted).
+            language: Language of the file (Python, TypeScript or JavaScript).
 
         Returns:
             List of violations for unjustified and orphaned suppressions.
         """
         # Extract and parse header suppressions
-        header = self._suppression_parser.extract_header(code, "python")
+        header = self._suppression_parser.extract_header(code, language)
         suppressions = self._suppression_parser.parse(header)
 
         # Find all ignore directives in code
-        ignores = self._python_detector.find_ignores(code, Path(file_path))
+        detector = self._python_detector if language == Language.PYTHON else self._typescript_detector
+        ignores = detector.find_ignores(code, Path(file_path))
 
         # Find test skip directives if enabled
         if self._check_test_skips:
-            test_skips = self._test_skip_detector.find_skips(code, Path(file_path), "python")
+            test_skips = self._test_skip_detector.find_skips(code, Path(file_path), language)
             ignores = list(ignores) + list(test_skips)
 
         # Build set of normalized rule IDs used in code
